@@ -917,7 +917,7 @@ func main() {
 			"queries whose expressions may throw or that the documentation leaves undecided are skipped as in C22",
 			"known-finding classes are those of C22 (whole-row summarize, summarize result named like a source column)",
 		},
-		QuickBudget: 60, ThoroughBudget: 1200,
+		QuickBudget: 55, ThoroughBudget: 840,
 		Procs: 16,
 		Run:   run, Replay: replay,
 	})
